@@ -17,11 +17,12 @@
 //   a -> A:<ok|e1..e4>              (classes of the C15 harness)
 //   f -> F:<ok|err>|<obs before the call>|<obs after>     s -> S:<obs>
 //   obs := <GetHighestFinalisedHash as block index|err>;<n=GetHashByNumber(n) or n=! on error,... for n in 0..nblk+1>;
-//          <per block 0..nblk two hex digits: 10 header in the database (HasHeaderInDatabase),
-//           8 HasHeader, 4 GetHeader ok, 2 in unfinalisedBlocks, 1 Tries.get(state root) != nil>;
+//          <per block 0..nblk two hex digits: 40 GetBlockByHash ok, 20 GetBlockBody ok (and
+//           HasBlockBody), 10 header in the database (HasHeaderInDatabase), 8 HasHeader, 4 GetHeader ok, 2 in unfinalisedBlocks, 1 Tries.get(state root) != nil>;
 //          <Tries.len>;<BestBlockHash>;
 //          <n=the database's own number index db.Get(headerHashKey(n)) as block index, or n=- when
-//           absent,... for n in 0..nblk+1>
+//           absent,... for n in 0..nblk+1>;
+//          <n=hash of the block GetBlockByNumber(n) answers as block index, or n=! on error,...>
 package state
 
 import (
@@ -192,6 +193,14 @@ func c17Run(in string) string {
 			if has, err := bs.HasHeaderInDatabase(h); err == nil && has {
 				v |= 16
 			}
+			if body, err := bs.GetBlockBody(h); err == nil && body != nil {
+				if has, err := bs.HasBlockBody(h); err == nil && has {
+					v |= 32
+				}
+			}
+			if blk, err := bs.GetBlockByHash(h); err == nil && blk != nil && blk.Header.Hash() == h {
+				v |= 64
+			}
 			fmt.Fprintf(&fl, "%02x", v)
 		}
 		var dbn []string
@@ -203,8 +212,17 @@ func c17Run(in string) string {
 				dbn = append(dbn, vu.X(uint64(k))+"="+id(common.NewHash(bh)))
 			}
 		}
-		return fmt.Sprintf("%s;%s;%s;%s;%s;%s", hi, strings.Join(byn, ","), fl.String(),
-			vu.X(uint64(bs.tries.len())), id(bs.BestBlockHash()), strings.Join(dbn, ","))
+		var bkn []string
+		for k := 0; k <= n+1; k++ {
+			blk, err := bs.GetBlockByNumber(uint(k))
+			if err != nil || blk == nil {
+				bkn = append(bkn, vu.X(uint64(k))+"=!")
+			} else {
+				bkn = append(bkn, vu.X(uint64(k))+"="+id(blk.Header.Hash()))
+			}
+		}
+		return fmt.Sprintf("%s;%s;%s;%s;%s;%s;%s", hi, strings.Join(byn, ","), fl.String(),
+			vu.X(uint64(bs.tries.len())), id(bs.BestBlockHash()), strings.Join(dbn, ","), strings.Join(bkn, ","))
 	}
 
 	hs := make([]string, len(blks))
